@@ -22,10 +22,11 @@ LEVEL_TEXT = ("Machine-checked proof, for every state and every continuation (an
               "Close), that an accepted GOAWAY(N) leaves `reachable` for good and no stream id is ever allocated afterwards, that it "
               "leaves every stream with id <= N untouched, and that every still-active stream with N < id <= previous GOAWAY id ends "
               "UNAVAILABLE with Unprocessed()=true. Server: in every reachable state the final GOAWAY carries maxStreamID, every "
-              "stream handed to a handler has id <= that id, and nothing is accepted once the transport left `reachable`. Two clauses "
-              "are DISPROVED for the code as it is (machine-checked counterexamples, reproduced on the real transports, known "
-              "findings): a later GOAWAY with a larger id is not treated as a connection error by the client, and a draining server "
-              "can close the connection under a stream covered by its final GOAWAY. Both models are diffed against the real "
+              "stream handed to a handler has id <= that id, and nothing is accepted once the transport left `reachable`. A later GOAWAY with a larger id "
+              "makes the reader exit and Close start (second_goaway_larger_is_conn_error; this was false before fix bd29b43 — the "
+              "_counterexample/_partial pair describes a tree without the `return` and is kept as the regression witness). One clause "
+              "is DISPROVED for the code as it is (machine-checked counterexample, reproduced on the real transport, known finding "
+              "F44): a draining server can close the connection under a stream covered by its final GOAWAY. Both models are diffed against the real "
               "transports (state, every stream's outcome/flags, frames written) after every op.")
 LEVEL_NOTE = ("Trusted: Lean kernel; the hand models lean/GrpcModel/Model/ClientConn.lean and ServerDrain.lean (each handler is one "
               "atomic event: linearisability of the critical sections under t.mu / maxStreamMu / controlBuf.mu is assumed; the tie "
@@ -35,7 +36,8 @@ LEVEL_NOTE = ("Trusted: Lean kernel; the hand models lean/GrpcModel/Model/Client
               "stream id seen in a HEADERS frame that passed the id check (set before the other admission checks); 'no double-run' is "
               "covered on the client by the Unprocessed flag theorems only (the retry decision lives in stream.go). The client model "
               "follows the CURRENT source for whether the reader returns on handleGoAway's error (T4 flag readerReturnsOnGoAwayErr), so "
-              "the check passes on the unfixed tree (known finding) and on a tree with the suggested fix. Harness: StaticWindowSize "
+              "the model follows the code; the MONITOR (a larger/even second GOAWAY must close the connection) is what reports a tree "
+              "without the `return` (F43, fixed by bd29b43). Harness: StaticWindowSize "
               "(no BDP pings), keepalive off on the client / default on the server; stream-level WINDOW_UPDATE frames are not compared; "
               "server handlers are driven by ops (WriteStatus), request bodies are not sent.")
 GAP = ("goroutine scheduling inside one handler; two NewStream calls woken by the same close(chan) (order decided by the Go runtime; the "
